@@ -22,7 +22,7 @@ na = [{'property_id': k, 'reason': v} for k, v in sorted(mm.NOT_APPLICABLE.items
 man = {
     'version': 1,
     'setup_cmd': './setup.sh',
-    'hooks': {'guard': 'none', 'enable': 'no source hooks: private items are reached by mechanical extraction (Verus) or by appending #[cfg(kani)] modules to a scratch copy of the crate', 'baseline_off_cmd': 'cd /repo && cargo test --workspace --no-fail-fast --offline', 'source_commits': mm.FIX_COMMITS, 'add_only': True},
+    'hooks': {'guard': 'none', 'enable': 'no source hooks: private items are reached by mechanical extraction (Verus) or by appending #[cfg(kani)] modules to a scratch copy of the crate', 'baseline_off_cmd': 'cd /repo && cargo test --workspace --no-fail-fast --offline', 'source_commits': [], 'add_only': True},
     'engines': [
         {'name': 'vx', 'path': 'tools/vx.py', 'serves_properties': sorted(registry.PROPS), 'kind_free_text': 'Verus (deductive, SMT) on functions extracted mechanically from /repo on every run, contracts spliced from vx/units/*.vt'},
         {'name': 'kx', 'path': 'tools/kx.py', 'serves_properties': sorted(p for p in registry.PROPS if registry.PROPS[p].get('kx')), 'kind_free_text': 'Kani/CBMC harnesses appended to a scratch copy of the real crate: complete (loop-free / fixed-width) units count as proof, bounded units are labelled and not counted'},
@@ -30,7 +30,7 @@ man = {
     ],
     'checks': checks,
     'not_applicable': na,
-    'notes': mm.NOTES,
+    'notes': mm.NOTES + ' Repairs of genuine defects in /repo (unguarded fix: commits, see known_findings.txt): ' + ', '.join(mm.FIX_COMMITS) + '.',
 }
 json.dump(man, open(os.path.join(VERIF, 'MANIFEST.json'), 'w'), indent=1)
 print('wrote MANIFEST.json: %d checks, %d not applicable' % (len(checks), len(na)))
